@@ -1,7 +1,7 @@
 SPECIFICATION TraceSpec
 CONSTANTS
   Paths = {"a", "a!", "b", "c"}
-  Kinds = {"native", "poll"}
+  Kinds = {"native", "poll", "poll2"}
   Fixes <- AllFsFixes
   Tracing = TRUE
 VIEW TraceView
